@@ -7,6 +7,7 @@ import (
 	"github.com/invopop/gobl/cbc"
 	"github.com/invopop/gobl/num"
 	"github.com/invopop/gobl/regimes/mx"
+	"github.com/invopop/jsonschema"
 	"github.com/invopop/validation"
 )
 
@@ -135,4 +136,9 @@ func (fvc *FoodVouchers) Calculate() error {
 	}
 
 	return nil
+}
+
+// JSONSchemaExtend adjusts the employee's tax code of the generated schema.
+func (FoodVouchersEmployee) JSONSchemaExtend(js *jsonschema.Schema) {
+	extendJSONSchemaWithTaxCode(js, "tax_code")
 }
